@@ -182,8 +182,9 @@ CLAIMED = {
             'calendar arithmetic of the record readers is listed as known findings KF-C13-5..9', 'DESIGN.md section 4 C13'),
     'C14': ('D', 'fault_enumeration',
             'exhaustive crash-point enumeration: every byte prefix of every generated file opened by the real readers',
-            'For ~65 (quick) / ~290 (thorough) generated files of 10 formats (incl. cloud/rain and land-use) EVERY '
-            'proper byte prefix (48 k / 278 k cuts; '
+            'For ~70 (quick) / ~300 (thorough) generated files of 11 formats (incl. cloud/rain, land-use and GEOS-Chem '
+            'binary punch files with averaged and instantaneous stamps; hour-24 end stamps) EVERY '
+            'proper byte prefix (58 k / ~300 k cuts; '
             'uamiv and lateral_boundary also in update mode r+) is opened with the memory-mapped reader and fully '
             'read: the outcome must be an exception or only complete steps bit-identical to the full file, same '
             'non-time dimensions; for the header-less met formats a cut on a record boundary inside the first step is a '
@@ -204,14 +205,16 @@ CLAIMED = {
             'DESIGN.md section 4 C18'),
     'C15': ('B-fork', 'model_checking',
             'exhaustive enumeration of open histories, each executed in a freshly forked pristine process, with every pool file probed after each history',
-            'Pool of 24 files: every self-describing format (uamiv, lateral_boundary, ICARTT, netCDF3, netCDF4, '
-            'IOAPI-netCDF, ARL, bpch) plus the indistinguishable vertical_diffusivity/humidity pair and an unrecognised '
-            'file, each with its recognisable extension and extension-less, plus one path whose content changes. '
-            'Every history of auto-detecting opens of length 0..2 (quick, 601 histories) / 0..3 (thorough, 14 k) runs '
-            'in a forked child of a pristine parent; afterwards every pool file is probed in both orders: selected '
-            'reader (or exception type), dimensions and a hash of all variable data must equal the fresh-process '
-            'result and the registry must be unchanged; auto-detected result == explicit-format result for '
-            'self-describing formats.',
+            'Pool of 31 files: every self-describing format (uamiv, lateral_boundary, ICARTT incl. DOS line endings '
+            'and trailing blanks, netCDF3, netCDF4, IOAPI-netCDF, ARL, bpch) plus the indistinguishable '
+            'vertical_diffusivity/humidity pair, an unrecognised file and 3-byte files with recognisable extensions, '
+            'each with its extension and extension-less, plus one path whose content changes. History alphabet: an '
+            'auto-detecting open of every pool file, 9 opens with an explicitly named format, re-registration of 3 '
+            'registered readers (43 events). Every history of length 0..2 (quick) / 0..3 (thorough; the reduced '
+            '24-event alphabet at the depth bound) runs in a forked child of a pristine parent; afterwards every pool '
+            'file is probed in both orders: selected reader (or exception type), dimensions and a hash of all '
+            'variable data must equal the fresh-process result and the registry must be unchanged; auto-detected '
+            'result == explicit-format result for self-describing formats.',
             'fork isolates histories (whole process state, not only the registry list)', 'DESIGN.md section 4 C15'),
 }
 
